@@ -194,6 +194,35 @@ var c46KindName = map[byte]string{'L': "found-live", 'f': "found", 'F': "found'"
 	'p': "ping", 'o': "pong", 'O': "pong'", 't': "timeout", 'P': "reval-ok", 'T': "reval-fail", 'Q': "reval-ok'",
 	'x': "ffail", 's': "fok"}
 
+// from returns the same scenario started in the state reached by the given operations.
+func (sc *c46Scenario) from(name string, prefix ...string) *c46Scenario {
+	cp := *sc
+	cp.name = name
+	var ops []int
+	for _, p := range prefix {
+		found := false
+		for i, n := range sc.names {
+			if n == p {
+				ops = append(ops, i)
+				found = true
+			}
+		}
+		if !found {
+			panic("c46: unknown prefix op " + p)
+		}
+	}
+	cp.prefill = func(s *c46Sys) {
+		for _, op := range ops {
+			s.final = false
+			if err := s.Apply(op); err != nil {
+				panic(err)
+			}
+		}
+		s.dirty = false
+	}
+	return &cp
+}
+
 func c46NewScenario(name string, nodes []*c46Node) *c46Scenario {
 	sc := &c46Scenario{name: name, nodes: nodes, byID: map[enode.ID]int{}, opIndex: map[c46Op]int{}}
 	for i, n := range nodes {
@@ -1316,8 +1345,13 @@ func TestVerif_C46_scaled(t *testing.T) {
 			c46N("a3", 256, 3, S2+"3", S1+"3", "fFdT"),
 			c46N("b1", 255, 1, S1+"4", S2+"4", "fiIQ"),
 		})
-		c46Explore(r, ip, mc.Pick(r, 5, 7))
-		c46Explore(r, reval, mc.Pick(r, 5, 6))
+		c46Explore(r, ip, mc.Pick(r, 4, 6))
+		c46Explore(r, reval, mc.Pick(r, 4, 6))
+		// the same alphabets from deeper start states (reached by the named prefix, which is itself part of the
+		// exploration above): bucket A full with a replacement and subnet S1 at the table limit; bucket A with an
+		// entry of the other subnet and a replacement
+		c46Explore(r, ip.from("ip+4", "found-a1", "found-a2", "found-a4", "found-b1"), mc.Pick(r, 3, 5))
+		c46Explore(r, reval.from("reval+3", "found-a3", "found-a1", "found-a2"), mc.Pick(r, 3, 5))
 	})
 }
 
@@ -1338,6 +1372,15 @@ func (s *c46Sys) step(kind byte, node int) error {
 		return fmt.Errorf("at %s: %v", s.sc.names[idx], err)
 	}
 	return nil
+}
+
+// checkNow verifies all invariants and the closest-node queries on the current state.
+func (s *c46Sys) checkNow() error {
+	sn := s.snap()
+	if err := s.invariants(sn); err != nil {
+		return fmt.Errorf("%v\n  table: %s", err, s.fmtSnap(sn))
+	}
+	return s.checkFind(sn, s.sc.targets, []int{1, bucketSize, len(sn.all()) + 1})
 }
 
 func (s *c46Sys) bucketCounts(d int) (entries, repl int) {
@@ -1433,7 +1476,11 @@ func TestVerif_C46_full(t *testing.T) {
 		r.Assume("same driver, reference helpers and postconditions as the scaled step")
 
 		// (a) boundary-state BFS
-		c46Explore(r, c46Boundary(), mc.Pick(r, 3, 5))
+		c46Explore(r, c46Boundary(), mc.Pick(r, 2, 4))
+
+		// the grid cases are independent of each other: collect them and run them on all cores
+		var jobs []func()
+		addCase := func(c any, fn func() error) { jobs = append(jobs, func() { r.Case(c, fn) }) }
 
 		// (b1) fill / drain one bucket
 		total := bucketSize + maxReplacements + 2
@@ -1444,14 +1491,11 @@ func TestVerif_C46_full(t *testing.T) {
 			}
 			sc := c46NewScenario(fmt.Sprintf("fill-d%d", d), nodes)
 			for _, n := range []int{1, bucketSize - 1, bucketSize, bucketSize + 1, bucketSize + maxReplacements, total} {
-				if r.Expired() {
-					return
-				}
 				c := map[string]any{"grid": "fill", "dist": d, "nodes": n}
 				if n == bucketSize+1 {
 					r.Sample(c)
 				}
-				r.Case(c, func() error {
+				addCase(c, func() error {
 					s := c46NewSys(r, sc)
 					defer s.close()
 					for i := 0; i < n; i++ {
@@ -1491,9 +1535,6 @@ func TestVerif_C46_full(t *testing.T) {
 		const S = "23.9.9."
 		for _, perBucket := range []int{1, bucketIPLimit, bucketIPLimit + 1} {
 			for _, full := range []bool{false, true} {
-				if r.Expired() {
-					return
-				}
 				var nodes []*c46Node
 				offers := tableIPLimit + 2
 				nb := (offers + perBucket - 1) / perBucket
@@ -1522,15 +1563,16 @@ func TestVerif_C46_full(t *testing.T) {
 				sc := c46NewScenario(fmt.Sprintf("iplimit-%d-%v", perBucket, full), nodes)
 				c := map[string]any{"grid": "iplimit", "per_bucket": perBucket, "buckets_full": full}
 				r.Sample(c)
-				r.Case(c, func() error {
+				addCase(c, func() error {
 					s := c46NewSys(r, sc)
 					defer s.close()
-					for _, f := range fillers {
+					for _, f := range fillers { // unchecked bulk fill, one full check afterwards
 						for i := 0; i < f.n; i++ {
-							if err := s.step('f', f.first+i); err != nil {
-								return err
-							}
+							s.add(nodes[f.first+i].recs[0], false, false)
 						}
+					}
+					if err := s.checkNow(); err != nil {
+						return err
 					}
 					// reference: the k-th offer is taken iff its bucket has < bucketIPLimit and the table < tableIPLimit of S
 					inBucket := map[int]int{}
@@ -1584,45 +1626,45 @@ func TestVerif_C46_full(t *testing.T) {
 
 		// (b3) closest-node queries on populated tables
 		for _, per := range []int{1, 3, bucketSize} {
-			if r.Expired() {
-				return
-			}
-			var nodes []*c46Node
-			for b := 0; b < nBuckets; b++ {
-				d := 256 - b
-				for j := 0; j < per; j++ {
-					kinds := "f"
-					if (b+j)%3 == 0 {
-						kinds = "L"
-					}
-					nodes = append(nodes, c46N(fmt.Sprintf("n%d.%d", d, j), d, uint32(7*j+1), fmt.Sprintf("70.%d.%d.1", b, j), "", kinds))
-				}
-			}
-			// two more nodes deep inside bucket 0
-			nodes = append(nodes, c46N("deep1", 100, 5, "71.0.0.1", "", "f"), c46N("deep2", 3, 1, "71.0.1.1", "", "L"))
-			sc := c46NewScenario(fmt.Sprintf("closest-%d", per), nodes)
 			for _, live := range []bool{true, false} {
+				var nodes []*c46Node
+				for b := 0; b < nBuckets; b++ {
+					d := 256 - b
+					for j := 0; j < per; j++ {
+						kinds := "f"
+						if live && (b+j)%3 == 0 {
+							kinds = "L"
+						}
+						nodes = append(nodes, c46N(fmt.Sprintf("n%d.%d", d, j), d, uint32(7*j+1), fmt.Sprintf("70.%d.%d.1", b, j), "", kinds))
+					}
+				}
+				// two more nodes deep inside bucket 0 (when it has room for them)
+				if per+2 <= bucketSize {
+					nodes = append(nodes, c46N("deep1", 100, 5, "71.0.0.1", "", "f"), c46N("deep2", 3, 1, "71.0.1.1", "", "f"))
+				}
+				sc := c46NewScenario(fmt.Sprintf("closest-%d-%v", per, live), nodes)
 				c := map[string]any{"grid": "closest", "per_bucket": per, "some_live": live}
 				r.Sample(c)
-				r.Case(c, func() error {
+				addCase(c, func() error {
 					s := c46NewSys(r, sc)
 					defer s.close()
-					for i, n := range nodes {
-						kind := n.kinds[0]
-						if !live {
-							kind = 'f'
+					for i, n := range nodes { // bulk fill; every 16th addition fully checked, then the whole table
+						if i%16 == 0 {
+							if err := s.step(n.kinds[0], i); err != nil {
+								return err
+							}
+						} else if !s.add(n.recs[0], false, n.kinds[0] == 'L') {
+							return fmt.Errorf("node %s of a fresh subnet not added to a bucket with room", n.name)
 						}
-						if _, ok := sc.opIndex[c46Op{kind, i}]; !ok {
-							sc.opIndex[c46Op{kind, i}] = len(sc.ops)
-							sc.ops = append(sc.ops, c46Op{kind, i})
-							sc.names = append(sc.names, c46KindName[kind]+"-"+n.name)
-						}
-						if err := s.step(kind, i); err != nil {
-							return err
-						}
+					}
+					if err := s.checkNow(); err != nil {
+						return err
 					}
 					sn := s.snap()
 					all := sn.all()
+					if len(all) != len(nodes) {
+						return fmt.Errorf("table has %d nodes after adding %d", len(all), len(nodes))
+					}
 					var inv enode.ID
 					for i := range inv {
 						inv[i] = ^c46Self[i]
@@ -1644,7 +1686,7 @@ func TestVerif_C46_full(t *testing.T) {
 			nodes := []*c46Node{c46N("a1", 256, 1, "23.1.1.1", "23.1.2.1", "fiI"), c46N("a2", 250, 1, "23.1.1.2", "", "fi")}
 			sc := c46NewScenario("preinit", nodes)
 			sc.noInit = true
-			r.Case(map[string]any{"grid": "preinit"}, func() error {
+			addCase(map[string]any{"grid": "preinit"}, func() error {
 				s := c46NewSys(r, sc)
 				defer s.close()
 				for _, st := range []c46Op{{'i', 0}, {'f', 0}, {'I', 0}, {'i', 1}} {
@@ -1667,5 +1709,7 @@ func TestVerif_C46_full(t *testing.T) {
 				return nil
 			})
 		}
+		r.Bound("grid_cases", len(jobs))
+		r.Parallel(len(jobs), func(i int) { jobs[i]() })
 	})
 }
